@@ -360,6 +360,12 @@ def _rs(fn, n):
 
 @contract
 class ComputeLikelihood:
+    # concrete inputs (conventions of rt/oracles_contracts.compute_likelihood): the number of events of the catalog differs from
+    # n_obs (synthetic catalogs are normalised by their own size), empty catalog, n_obs = 0, zero expected count
+    directed = staticmethod(lambda: [('compute_likelihood', dict(gridded_data=g, apprx_rate_density=r, expected_cond_count=e, n_obs=n))
+                                     for g, r, e, n in (([0, 2, 1], [0.5, 0.25, 0.25], 3.0, 5.0), ([1, 0, 0, 3], [0.1, 0.0, 2.0, 0.4], 2.5, 1.0),
+                                                        ([0, 0, 0], [0.5, 0.25, 0.25], 3.0, 2.0), ([2, 1], [0.3, 0.7], 1.0, 0.0),
+                                                        ([2, 1], [0.3, 0.7], 0.0, 3.0))])
     qualname = 'csep.utils.calc._compute_likelihood'
     case = '1-d gridded counts and rates'
     oracle = 'compute_likelihood'
